@@ -60,4 +60,20 @@ type ShapesEmbedded interface {
 	Close() error
 }
 
+// more than eight parameters + results: the method scope's variable list grows past its first allocation while earlier
+// variables still have to be renamed
+type ShapesLongUnnamed interface {
+	Sum(int, int, int, int, int, int, int, int, int) int
+	Mixed(int, string, int, *Local, string, Key, int, error, Local, []int, Key) (int, string, error)
+	ManyResults(string) (int, int, int, int, int, int, int, int, int, error)
+	Variadic(int, int, int, int, int, int, int, int, ...int) (int, error)
+}
+
+type ShapesLongNamed interface {
+	Fetch(http string, a, b, c, d, e, f int, client *h1.Client) error
+	Late(x1, x2, x3, x4, x5, x6, x7 int, io string, w io.Writer, context int, ctx context.Context) (err error, n int)
+	Early(io int, context string, http bool, p1, p2, p3, p4, p5, p6 int, r io.Reader, c context.Context, k h1.Key) (h1.Client, error)
+	Types(Local int, Key string, q1, q2, q3, q4, q5, q6, q7 int, l Local, k Key) (Key, Local)
+}
+
 type ShapesEmpty interface{}
